@@ -12,11 +12,23 @@
 //     (a parameter of type sdk.KVStore) — the key families the light client WRITES — and the iterations its
 //     ClientState.ExportMetadata performs on the store — the key families it EXPORTS; tss: ExportMetadata only.
 //
-// Subset handled: key expressions f(...) / pkg.f(...) / []byte(CONST) / a local variable with exactly one
-// assignment of such a form in the same function; ExportMetadata calls that pass the store as first argument
-// with an optional constant / []byte(CONST) second argument.  Anything else => the message goes into
-// [translator_errors] of the generated file (a failed tie of C13: schema_ok / lc_ok compute to false).
-// go/parser + go/ast only; no type checking.
+// Name-set based and transparent to helper extraction (no type checking, go/parser + go/ast only):
+//   - InitGenesis / validation: g.Field and g.GetField() count for every name g bound to the genesis state — the
+//     GenesisState receiver / parameters and local aliases — in the function itself and, transitively, in every
+//     function or method of the package of genesis.go or of the types package that it calls with such a name as
+//     receiver or argument (receiver and parameter substitution by position); a field selected at a call site
+//     (helper(g.Clients)) is a read of the caller;
+//   - ExportGenesis: the returned composite literal, a returned call of a constructor of those packages (followed), a
+//     returned local variable (its literal plus later v.Field = expr assignments);
+//   - client store writes: the key expression f(...) / pkg.f(...) / []byte(CONST), a local variable (everything
+//     assigned to it), or a PARAMETER of the enclosing function (then the corresponding argument at every call site in
+//     the package, transitively: a setKV(store, key, val) helper is transparent);
+//   - ExportMetadata: calls that pass the store; unexported helpers of the package are followed with the store and
+//     constant arguments substituted, `for _, p := range []T{A, B}` binds p to each constant; exported functions
+//     and functions of other packages are leaves (callee, constant or "").
+//
+// Anything else => the message goes into [translator_errors] of the generated file (a failed tie of C13:
+// schema_ok / lc_ok compute to false; the other properties' proof stages are not affected).
 package main
 
 import (
@@ -139,14 +151,175 @@ func isConstantExpr(e ast.Expr) bool {
 	return false
 }
 
-// the GenesisState composite literal a function returns: its state-derived keys
-func literalKeys(fd *ast.FuncDecl, resolve func(call *ast.CallExpr) *ast.FuncDecl, depth int) []string {
+// every function / method of the given name declared in the files (any receiver)
+func funcsNamed(files []*ast.File, name string) []*ast.FuncDecl {
+	var out []*ast.FuncDecl
+	for _, f := range files {
+		for _, d := range f.Decls {
+			if fd, ok := d.(*ast.FuncDecl); ok && fd.Name.Name == name && fd.Body != nil {
+				out = append(out, fd)
+			}
+		}
+	}
+	return out
+}
+
+func calleeName(call *ast.CallExpr) (name string, recv ast.Expr) {
+	switch f := call.Fun.(type) {
+	case *ast.Ident:
+		return f.Name, nil
+	case *ast.SelectorExpr:
+		return f.Sel.Name, f.X
+	}
+	return "", nil
+}
+
+// the flattened parameter names of a function (blank for unnamed ones)
+func paramNames(fd *ast.FuncDecl) []string {
+	var out []string
+	for _, p := range fd.Type.Params.List {
+		if len(p.Names) == 0 {
+			out = append(out, "_")
+		}
+		for _, n := range p.Names {
+			out = append(out, n.Name)
+		}
+	}
+	return out
+}
+
+func recvName(fd *ast.FuncDecl) string {
+	if fd.Recv != nil && len(fd.Recv.List) == 1 && len(fd.Recv.List[0].Names) == 1 {
+		return fd.Recv.List[0].Names[0].Name
+	}
+	return ""
+}
+
+func typeName(t ast.Expr) string {
+	if s, ok := t.(*ast.StarExpr); ok {
+		t = s.X
+	}
+	switch x := t.(type) {
+	case *ast.Ident:
+		return x.Name
+	case *ast.SelectorExpr:
+		return x.Sel.Name
+	}
+	return ""
+}
+
+// strips &x, *x and parentheses
+func bareIdent(e ast.Expr) string {
+	for {
+		switch x := e.(type) {
+		case *ast.ParenExpr:
+			e = x.X
+		case *ast.UnaryExpr:
+			if x.Op != token.AND {
+				return ""
+			}
+			e = x.X
+		case *ast.StarExpr:
+			e = x.X
+		case *ast.Ident:
+			return x.Name
+		default:
+			return ""
+		}
+	}
+}
+
+// the composite-literal keys (state-derived ones) of the GenesisState a function returns.  Followed transitively:
+// a returned call of a function of the module's packages, a returned local variable (its composite literal plus later
+// `v.Field = expr` assignments)
+func literalKeys(fd *ast.FuncDecl, space []*ast.File, visited map[*ast.FuncDecl]bool) []string {
 	if fd == nil || fd.Body == nil {
 		die("function without body")
 	}
+	if visited[fd] {
+		return nil
+	}
+	visited[fd] = true
 	var out []string
 	found := false
+	var fromExpr func(e ast.Expr, depth int)
+	fromLit := func(x *ast.CompositeLit) {
+		if tn := typeName(x.Type); tn != "GenesisState" {
+			die("%s: returns a literal of type %s", fd.Name.Name, tn)
+		}
+		for _, el := range x.Elts {
+			kv, ok := el.(*ast.KeyValueExpr)
+			if !ok {
+				die("%s: positional composite literal", fd.Name.Name)
+			}
+			k, ok := kv.Key.(*ast.Ident)
+			if !ok {
+				die("%s: literal key is not an identifier", fd.Name.Name)
+			}
+			if !isConstantExpr(kv.Value) {
+				out = append(out, k.Name)
+			}
+		}
+		found = true
+	}
+	fromExpr = func(e ast.Expr, depth int) {
+		if depth > 4 {
+			die("%s: return expression nested too deeply", fd.Name.Name)
+		}
+		switch x := e.(type) {
+		case *ast.ParenExpr:
+			fromExpr(x.X, depth+1)
+		case *ast.UnaryExpr:
+			if x.Op != token.AND {
+				die("%s: unsupported return expression", fd.Name.Name)
+			}
+			fromExpr(x.X, depth+1)
+		case *ast.StarExpr:
+			fromExpr(x.X, depth+1)
+		case *ast.CompositeLit:
+			fromLit(x)
+		case *ast.CallExpr:
+			name, _ := calleeName(x)
+			cands := funcsNamed(space, name)
+			if len(cands) == 0 {
+				die("%s: returns the result of a call (%s) the translator cannot resolve", fd.Name.Name, name)
+			}
+			for _, c := range cands {
+				out = append(out, literalKeys(c, space, visited)...)
+			}
+			found = true
+		case *ast.Ident:
+			// a local variable: every value assigned to it, and every v.Field = expr
+			ast.Inspect(fd.Body, func(n ast.Node) bool {
+				switch st := n.(type) {
+				case *ast.AssignStmt:
+					for i, l := range st.Lhs {
+						if id, ok := l.(*ast.Ident); ok && id.Name == x.Name && len(st.Rhs) == len(st.Lhs) {
+							fromExpr(st.Rhs[i], depth+1)
+						}
+						if se, ok := l.(*ast.SelectorExpr); ok && bareIdent(se.X) == x.Name && len(st.Rhs) == len(st.Lhs) && !isConstantExpr(st.Rhs[i]) {
+							out = append(out, se.Sel.Name)
+						}
+					}
+				case *ast.ValueSpec:
+					for i, id := range st.Names {
+						if id.Name == x.Name && i < len(st.Values) {
+							fromExpr(st.Values[i], depth+1)
+						} else if id.Name == x.Name && typeName(st.Type) == "GenesisState" {
+							found = true // var gs types.GenesisState, filled by field assignments
+						}
+					}
+				}
+				return true
+			})
+		default:
+			die("%s: unsupported return expression", fd.Name.Name)
+		}
+	}
 	ast.Inspect(fd.Body, func(n ast.Node) bool {
+		if _, ok := n.(*ast.FuncLit); ok {
+			return false
+		}
 		ret, ok := n.(*ast.ReturnStmt)
 		if !ok {
 			return true
@@ -154,49 +327,7 @@ func literalKeys(fd *ast.FuncDecl, resolve func(call *ast.CallExpr) *ast.FuncDec
 		if len(ret.Results) != 1 {
 			die("%s: return with %d results", fd.Name.Name, len(ret.Results))
 		}
-		e := ret.Results[0]
-		if u, ok := e.(*ast.UnaryExpr); ok && u.Op == token.AND {
-			e = u.X
-		}
-		switch x := e.(type) {
-		case *ast.CompositeLit:
-			tn := ""
-			switch t := x.Type.(type) {
-			case *ast.Ident:
-				tn = t.Name
-			case *ast.SelectorExpr:
-				tn = t.Sel.Name
-			}
-			if tn != "GenesisState" {
-				die("%s: returns a literal of type %s", fd.Name.Name, tn)
-			}
-			for _, el := range x.Elts {
-				kv, ok := el.(*ast.KeyValueExpr)
-				if !ok {
-					die("%s: positional composite literal", fd.Name.Name)
-				}
-				k, ok := kv.Key.(*ast.Ident)
-				if !ok {
-					die("%s: literal key is not an identifier", fd.Name.Name)
-				}
-				if !isConstantExpr(kv.Value) {
-					out = append(out, k.Name)
-				}
-			}
-			found = true
-		case *ast.CallExpr:
-			if depth > 0 {
-				die("%s: nested constructor calls", fd.Name.Name)
-			}
-			callee := resolve(x)
-			if callee == nil {
-				die("%s: returns the result of a call the translator cannot resolve", fd.Name.Name)
-			}
-			out = append(out, literalKeys(callee, resolve, depth+1)...)
-			found = true
-		default:
-			die("%s: unsupported return expression", fd.Name.Name)
-		}
+		fromExpr(ret.Results[0], 0)
 		return true
 	})
 	if !found {
@@ -205,43 +336,37 @@ func literalKeys(fd *ast.FuncDecl, resolve func(call *ast.CallExpr) *ast.FuncDec
 	return out
 }
 
-// name of the parameter whose type mentions GenesisState
-func genesisParam(fd *ast.FuncDecl) string {
-	check := func(fl *ast.FieldList) string {
+// names of the receiver / parameters whose type is (a pointer to) GenesisState
+func genesisParams(fd *ast.FuncDecl) map[string]bool {
+	out := map[string]bool{}
+	check := func(fl *ast.FieldList) {
 		if fl == nil {
-			return ""
+			return
 		}
 		for _, p := range fl.List {
-			t := p.Type
-			if s, ok := t.(*ast.StarExpr); ok {
-				t = s.X
-			}
-			name := ""
-			switch x := t.(type) {
-			case *ast.Ident:
-				name = x.Name
-			case *ast.SelectorExpr:
-				name = x.Sel.Name
-			}
-			if name == "GenesisState" && len(p.Names) == 1 {
-				return p.Names[0].Name
+			if typeName(p.Type) == "GenesisState" {
+				for _, n := range p.Names {
+					out[n.Name] = true
+				}
 			}
 		}
-		return ""
 	}
-	if n := check(fd.Recv); n != "" {
-		return n
-	}
-	return check(fd.Type.Params)
+	check(fd.Recv)
+	check(fd.Type.Params)
+	return out
 }
 
-// fields of the genesis parameter a function reads: p.Field and p.GetField()
-func readFields(fd *ast.FuncDecl, fields []string) []string {
+// The fields of the genesis state a function reads: g.Field and g.GetField() for every name g bound to the genesis
+// state — the GenesisState receiver / parameters, local aliases (h := g, h := *g, h := &g) — in the function itself
+// and, transitively, in every function or method of the module's packages (space) it calls with such a name as
+// receiver or argument (receiver and parameter substitution by position).  Fields selected at a call site
+// (helper(g.Clients)) are reads of the caller.
+func readFields(fd *ast.FuncDecl, fields []string, space []*ast.File) []string {
 	if fd == nil || fd.Body == nil {
 		die("function without body")
 	}
-	p := genesisParam(fd)
-	if p == "" {
+	roots := genesisParams(fd)
+	if len(roots) == 0 {
 		die("%s: no GenesisState parameter", fd.Name.Name)
 	}
 	is := map[string]bool{}
@@ -249,23 +374,95 @@ func readFields(fd *ast.FuncDecl, fields []string) []string {
 		is[f] = true
 	}
 	seen := map[string]bool{}
-	ast.Inspect(fd.Body, func(n ast.Node) bool {
-		se, ok := n.(*ast.SelectorExpr)
-		if !ok {
+	visited := map[string]bool{}
+	var walk func(fd *ast.FuncDecl, names map[string]bool, depth int)
+	walk = func(fd *ast.FuncDecl, names map[string]bool, depth int) {
+		var keys []string
+		for n := range names {
+			keys = append(keys, n)
+		}
+		sort.Strings(keys)
+		key := fmt.Sprintf("%p|%s", fd, strings.Join(keys, ","))
+		if visited[key] || depth > 12 {
+			return
+		}
+		visited[key] = true
+		// local aliases, to a fixpoint
+		for changed := true; changed; {
+			changed = false
+			ast.Inspect(fd.Body, func(n ast.Node) bool {
+				switch st := n.(type) {
+				case *ast.AssignStmt:
+					if len(st.Lhs) == len(st.Rhs) {
+						for i, l := range st.Lhs {
+							if id, ok := l.(*ast.Ident); ok && id.Name != "_" && !names[id.Name] && names[bareIdent(st.Rhs[i])] {
+								names[id.Name] = true
+								changed = true
+							}
+						}
+					}
+				case *ast.ValueSpec:
+					for i, id := range st.Names {
+						if i < len(st.Values) && !names[id.Name] && names[bareIdent(st.Values[i])] {
+							names[id.Name] = true
+							changed = true
+						}
+					}
+				}
+				return true
+			})
+		}
+		ast.Inspect(fd.Body, func(n ast.Node) bool {
+			switch x := n.(type) {
+			case *ast.SelectorExpr:
+				if names[bareIdent(x.X)] {
+					name := x.Sel.Name
+					if is[name] {
+						seen[name] = true
+					} else if strings.HasPrefix(name, "Get") && is[name[3:]] {
+						seen[name[3:]] = true
+					}
+				}
+			case *ast.CallExpr:
+				name, recv := calleeName(x)
+				if name == "" {
+					return true
+				}
+				recvBound := recv != nil && names[bareIdent(recv)]
+				var argBound []int
+				for i, a := range x.Args {
+					if names[bareIdent(a)] {
+						argBound = append(argBound, i)
+					}
+				}
+				if !recvBound && len(argBound) == 0 {
+					return true
+				}
+				for _, c := range funcsNamed(space, name) {
+					if recvBound && (c.Recv == nil || typeName(c.Recv.List[0].Type) != "GenesisState") {
+						continue
+					}
+					sub := map[string]bool{}
+					if recvBound {
+						if r := recvName(c); r != "" {
+							sub[r] = true
+						}
+					}
+					ps := paramNames(c)
+					for _, i := range argBound {
+						if i < len(ps) && ps[i] != "_" {
+							sub[ps[i]] = true
+						}
+					}
+					if len(sub) > 0 {
+						walk(c, sub, depth+1)
+					}
+				}
+			}
 			return true
-		}
-		id, ok := se.X.(*ast.Ident)
-		if !ok || id.Name != p {
-			return true
-		}
-		name := se.Sel.Name
-		if is[name] {
-			seen[name] = true
-		} else if strings.HasPrefix(name, "Get") && is[name[3:]] {
-			seen[name[3:]] = true
-		}
-		return true
-	})
+		})
+	}
+	walk(fd, roots, 0)
 	var out []string
 	for _, f := range fields {
 		if seen[f] {
@@ -301,46 +498,103 @@ func kvStoreParams(fd *ast.FuncDecl) map[string]bool {
 	return out
 }
 
-func keyHead(e ast.Expr, fd *ast.FuncDecl, depth int) string {
+// position of a parameter name among the flattened parameters of fd (-1: not a parameter)
+func paramIndex(fd *ast.FuncDecl, name string) int {
+	for i, n := range paramNames(fd) {
+		if n == name {
+			return i
+		}
+	}
+	return -1
+}
+
+// The heads of a key expression: f(...) -> "f", pkg.f(...) -> "pkg.f", []byte(CONST) -> "const:CONST"; a local
+// variable -> the heads of everything assigned to it in the function; a PARAMETER of the function -> the heads of the
+// corresponding argument at every call site of the function in the package (transitively).
+func keyHeads(e ast.Expr, fd *ast.FuncDecl, files []*ast.File, depth int) []string {
+	if depth > 8 {
+		die("%s: %s: key expression of a client store write nested too deeply", fset.Position(e.Pos()), fd.Name.Name)
+	}
 	switch x := e.(type) {
+	case *ast.ParenExpr:
+		return keyHeads(x.X, fd, files, depth+1)
 	case *ast.CallExpr:
 		switch f := x.Fun.(type) {
 		case *ast.Ident:
-			return f.Name
+			return []string{f.Name}
 		case *ast.SelectorExpr:
 			if id, ok := f.X.(*ast.Ident); ok {
-				return id.Name + "." + f.Sel.Name
+				return []string{id.Name + "." + f.Sel.Name}
 			}
 		case *ast.ArrayType: // []byte(CONST)
 			if len(x.Args) == 1 {
 				if id, ok := x.Args[0].(*ast.Ident); ok {
-					return "const:" + id.Name
+					if paramIndex(fd, id.Name) >= 0 {
+						return keyHeads(id, fd, files, depth+1)
+					}
+					return []string{"const:" + id.Name}
 				}
 			}
 		}
 	case *ast.Ident:
-		if depth > 0 {
-			break
-		}
-		var rhs []ast.Expr
-		ast.Inspect(fd.Body, func(n ast.Node) bool {
-			as, ok := n.(*ast.AssignStmt)
-			if !ok {
-				return true
+		var out []string
+		if pi := paramIndex(fd, x.Name); pi >= 0 {
+			for _, f := range files {
+				for _, d := range f.Decls {
+					caller, ok := d.(*ast.FuncDecl)
+					if !ok || caller.Body == nil {
+						continue
+					}
+					ast.Inspect(caller.Body, func(n ast.Node) bool {
+						call, ok := n.(*ast.CallExpr)
+						if !ok {
+							return true
+						}
+						if name, _ := calleeName(call); name == fd.Name.Name && pi < len(call.Args) {
+							arg := call.Args[pi]
+							if id, ok := arg.(*ast.Ident); ok && caller == fd && id.Name == x.Name {
+								return true // recursion passing the parameter through
+							}
+							out = append(out, keyHeads(arg, caller, files, depth+1)...)
+						}
+						return true
+					})
+				}
 			}
-			for i, l := range as.Lhs {
-				if id, ok := l.(*ast.Ident); ok && id.Name == x.Name && len(as.Rhs) == len(as.Lhs) {
-					rhs = append(rhs, as.Rhs[i])
+			if len(out) == 0 { // never called inside the package: the key comes from outside, nothing to classify
+				die("%s: %s: the key of a client store write is a parameter and the function has no caller in its package", fset.Position(e.Pos()), fd.Name.Name)
+			}
+			return out
+		}
+		ast.Inspect(fd.Body, func(n ast.Node) bool {
+			switch st := n.(type) {
+			case *ast.AssignStmt:
+				for i, l := range st.Lhs {
+					if id, ok := l.(*ast.Ident); ok && id.Name == x.Name && len(st.Rhs) == len(st.Lhs) {
+						// key = append(key, ...) keeps the head of key
+						if c, ok := st.Rhs[i].(*ast.CallExpr); ok {
+							if fn, ok := c.Fun.(*ast.Ident); ok && fn.Name == "append" && len(c.Args) > 0 && bareIdent(c.Args[0]) == x.Name {
+								continue
+							}
+						}
+						out = append(out, keyHeads(st.Rhs[i], fd, files, depth+1)...)
+					}
+				}
+			case *ast.ValueSpec:
+				for i, id := range st.Names {
+					if id.Name == x.Name && i < len(st.Values) {
+						out = append(out, keyHeads(st.Values[i], fd, files, depth+1)...)
+					}
 				}
 			}
 			return true
 		})
-		if len(rhs) == 1 {
-			return keyHead(rhs[0], fd, depth+1)
+		if len(out) > 0 {
+			return out
 		}
 	}
 	die("%s: %s: key expression of a client store write outside the supported subset", fset.Position(e.Pos()), fd.Name.Name)
-	return ""
+	return nil
 }
 
 func storeWrites(files []*ast.File) []string {
@@ -371,7 +625,9 @@ func storeWrites(files []*ast.File) []string {
 					}
 					return true
 				}
-				seen[keyHead(call.Args[0], fd, 0)] = true
+				for _, h := range keyHeads(call.Args[0], fd, files, 0) {
+					seen[h] = true
+				}
 				return true
 			})
 		}
@@ -384,65 +640,180 @@ func storeWrites(files []*ast.File) []string {
 	return out
 }
 
-// the iterations ExportMetadata performs on its store parameter: (callee, constant or "")
+func isUnexported(name string) bool { return name != "" && name[0] >= 'a' && name[0] <= 'z' }
+
+// The iterations ExportMetadata performs on its store parameter, in source order: (callee, constant or "").
+// Calls of UNEXPORTED functions of the package that receive the store are followed (the store parameter and
+// constant arguments are substituted), so a helper that wraps the iteration is transparent; exported functions
+// (IterateProcessedTime, IteratorTraversal ...) and functions of other packages are leaves named by the callee.
+// A `for _, p := range []T{A, B}` over constants binds p to each of them in turn.
 func exportIterates(files []*ast.File) [][2]string {
-	fd := funcDecl(files, "ClientState", "ExportMetadata")
-	if fd == nil {
+	root := funcDecl(files, "ClientState", "ExportMetadata")
+	if root == nil {
 		die("ClientState.ExportMetadata not found")
 	}
-	stores := kvStoreParams(fd)
 	var out [][2]string
-	ast.Inspect(fd.Body, func(n ast.Node) bool {
-		call, ok := n.(*ast.CallExpr)
-		if !ok || len(call.Args) == 0 {
-			return true
-		}
-		a0, ok := call.Args[0].(*ast.Ident)
-		if !ok || !stores[a0.Name] {
-			return true
-		}
-		callee := ""
-		switch f := call.Fun.(type) {
-		case *ast.Ident:
-			callee = f.Name
-		case *ast.SelectorExpr:
-			callee = f.Sel.Name
-		default:
-			die("%s: ExportMetadata: unsupported callee", fset.Position(call.Pos()))
-		}
-		arg := ""
-		if len(call.Args) >= 2 {
-			switch x := call.Args[1].(type) {
-			case *ast.Ident:
-				arg = x.Name
-			case *ast.CallExpr: // []byte(CONST)
-				if _, ok := x.Fun.(*ast.ArrayType); ok && len(x.Args) == 1 {
-					if id, ok := x.Args[0].(*ast.Ident); ok {
-						arg = id.Name
+	// package-level constants and variables: only these (and helper parameters bound to them) name a prefix
+	pkgNames := map[string]bool{}
+	for _, f := range files {
+		for _, d := range f.Decls {
+			if gd, ok := d.(*ast.GenDecl); ok && (gd.Tok == token.CONST || gd.Tok == token.VAR) {
+				for _, sp := range gd.Specs {
+					if vs, ok := sp.(*ast.ValueSpec); ok {
+						for _, n := range vs.Names {
+							pkgNames[n.Name] = true
+						}
 					}
 				}
-				if arg == "" {
-					die("%s: ExportMetadata: unsupported prefix argument", fset.Position(call.Pos()))
-				}
-			case *ast.FuncLit:
-			default:
-				die("%s: ExportMetadata: unsupported second argument", fset.Position(call.Pos()))
 			}
 		}
-		out = append(out, [2]string{callee, arg})
-		return true
-	})
-	// any other use of the store (method calls on it) is outside the subset
-	ast.Inspect(fd.Body, func(n ast.Node) bool {
-		se, ok := n.(*ast.SelectorExpr)
-		if !ok {
+	}
+	constOf := func(e ast.Expr) (string, bool) { // CONST or []byte(CONST) / string(CONST)
+		switch x := e.(type) {
+		case *ast.Ident:
+			return x.Name, true
+		case *ast.SelectorExpr: // pkg.CONST
+			if id, ok := x.X.(*ast.Ident); ok && !isUnexported(x.Sel.Name) {
+				return id.Name + "." + x.Sel.Name, true
+			}
+		case *ast.CallExpr:
+			if len(x.Args) == 1 {
+				switch x.Fun.(type) {
+				case *ast.ArrayType, *ast.Ident:
+					switch a := x.Args[0].(type) {
+					case *ast.Ident:
+						return a.Name, true
+					case *ast.SelectorExpr:
+						if id, ok := a.X.(*ast.Ident); ok && !isUnexported(a.Sel.Name) {
+							return id.Name + "." + a.Sel.Name, true
+						}
+					}
+				}
+			}
+		}
+		return "", false
+	}
+	var walk func(fd *ast.FuncDecl, stores map[string]bool, env map[string][]string, depth int)
+	walk = func(fd *ast.FuncDecl, stores map[string]bool, env map[string][]string, depth int) {
+		if depth > 6 {
+			die("%s: ExportMetadata: helpers nested too deeply", fd.Name.Name)
+		}
+		resolve := func(e ast.Expr) ([]string, bool) {
+			c, ok := constOf(e)
+			if !ok {
+				return nil, false
+			}
+			if vs, ok := env[c]; ok {
+				return vs, true
+			}
+			if !pkgNames[c] && !strings.Contains(c, ".") {
+				return nil, false // a local variable (callback ...), not a constant
+			}
+			return []string{c}, true
+		}
+		var visit func(n ast.Node) bool
+		visit = func(n ast.Node) bool {
+			switch x := n.(type) {
+			case *ast.RangeStmt:
+				// for _, p := range []T{A, B}: bind p to the constants
+				if lit, ok := x.X.(*ast.CompositeLit); ok {
+					if v, ok := x.Value.(*ast.Ident); ok && v.Name != "_" {
+						var cs []string
+						all := true
+						for _, el := range lit.Elts {
+							c, ok := resolve(el)
+							if !ok {
+								all = false
+								break
+							}
+							cs = append(cs, c...)
+						}
+						if all {
+							for _, c := range cs {
+								saved, had := env[v.Name]
+								env[v.Name] = []string{c}
+								ast.Inspect(x.Body, visit)
+								if had {
+									env[v.Name] = saved
+								} else {
+									delete(env, v.Name)
+								}
+							}
+							return false
+						}
+					}
+				}
+			case *ast.SelectorExpr:
+				if id, ok := x.X.(*ast.Ident); ok && stores[id.Name] {
+					die("%s: ExportMetadata (or a helper of it) calls a method of the store directly", fset.Position(x.Pos()))
+				}
+			case *ast.CallExpr:
+				if len(x.Args) == 0 {
+					return true
+				}
+				storeArg := -1
+				for i, a := range x.Args {
+					if id, ok := a.(*ast.Ident); ok && stores[id.Name] {
+						storeArg = i
+						break
+					}
+				}
+				if storeArg < 0 {
+					return true
+				}
+				callee, recv := calleeName(x)
+				if callee == "" {
+					die("%s: ExportMetadata: unsupported callee", fset.Position(x.Pos()))
+				}
+				if recv == nil || bareIdent(recv) == recvName(fd) && recvName(fd) != "" {
+					if isUnexported(callee) {
+						if cands := funcsNamed(files, callee); len(cands) == 1 {
+							c := cands[0]
+							ps := paramNames(c)
+							sub := map[string]bool{}
+							subEnv := map[string][]string{}
+							for i, a := range x.Args {
+								if i >= len(ps) {
+									break
+								}
+								if id, ok := a.(*ast.Ident); ok && stores[id.Name] {
+									sub[ps[i]] = true
+								} else if vs, ok := resolve(a); ok {
+									subEnv[ps[i]] = vs
+								}
+							}
+							walk(c, sub, subEnv, depth+1)
+							return true
+						}
+					}
+				}
+				// a leaf: the first argument after the store that is a constant names the prefix
+				args := []string{""}
+				for i, a := range x.Args {
+					if i == storeArg {
+						continue
+					}
+					if _, isFunc := a.(*ast.FuncLit); isFunc {
+						continue
+					}
+					if vs, ok := resolve(a); ok {
+						args = vs
+						break
+					}
+					if _, ok := a.(*ast.Ident); ok {
+						continue // a local variable: the callback
+					}
+					die("%s: ExportMetadata: unsupported argument of %s", fset.Position(x.Pos()), callee)
+				}
+				for _, a := range args {
+					out = append(out, [2]string{callee, a})
+				}
+			}
 			return true
 		}
-		if id, ok := se.X.(*ast.Ident); ok && stores[id.Name] {
-			die("%s: ExportMetadata calls a method of the store directly", fset.Position(se.Pos()))
-		}
-		return true
-	})
+		ast.Inspect(fd.Body, visit)
+	}
+	walk(root, kvStoreParams(root), map[string][]string{}, 0)
 	return out
 }
 
@@ -518,19 +889,8 @@ func generate(repoDir string) string {
 		fields := structFields(parseFile(*repo, m.pb), "GenesisState")
 		types := parseDir(*repo, m.typesDir)
 		gen := []*ast.File{parseFile(*repo, m.genesisFile)}
-		resolve := func(call *ast.CallExpr) *ast.FuncDecl {
-			name := ""
-			switch f := call.Fun.(type) {
-			case *ast.Ident:
-				name = f.Name
-			case *ast.SelectorExpr:
-				name = f.Sel.Name
-			}
-			if name == "" {
-				return nil
-			}
-			return funcDecl(types, "", name)
-		}
+		// helpers may live in any file of the package that holds genesis.go or of the types package
+		space := append(append([]*ast.File{}, parseDir(*repo, filepath.Dir(m.genesisFile))...), types...)
 		exp := funcDecl(gen, m.exportRecv, "ExportGenesis")
 		ini := funcDecl(gen, m.initRecv, "InitGenesis")
 		if exp == nil || ini == nil {
@@ -545,7 +905,7 @@ func generate(repoDir string) string {
 		if val == nil {
 			die("%s: genesis validation function not found", m.id)
 		}
-		ek := literalKeys(exp, resolve, 0)
+		ek := literalKeys(exp, space, map[*ast.FuncDecl]bool{})
 		for _, k := range ek {
 			ok := false
 			for _, f := range fields {
@@ -557,8 +917,8 @@ func generate(repoDir string) string {
 		}
 		structs = append(structs, fmt.Sprintf("(%s, %s)", q(m.id), strList(fields)))
 		exports = append(exports, fmt.Sprintf("(%s, %s)", q(m.id), strList(ek)))
-		inits = append(inits, fmt.Sprintf("(%s, %s)", q(m.id), strList(readFields(ini, fields))))
-		validates = append(validates, fmt.Sprintf("(%s, %s)", q(m.id), strList(readFields(val, fields))))
+		inits = append(inits, fmt.Sprintf("(%s, %s)", q(m.id), strList(readFields(ini, fields, space))))
+		validates = append(validates, fmt.Sprintf("(%s, %s)", q(m.id), strList(readFields(val, fields, space))))
 	}
 	emit := func(name, ty string, items []string) {
 		fmt.Fprintf(&b, "Definition %s : %s :=\n  [%s].\n\n", name, ty, strings.Join(items, ";\n   "))
